@@ -290,6 +290,7 @@ def run(res: Results, idx: Index, tier: str) -> None:
     run_structured_param_fields(res, idx)
     run_static_start_clamp(res, idx)
     run_producer_op_tests(res, idx)
+    run_exact_constant_matches(res, idx)
     _rule_i(res, idx, tier)
     if not getattr(res, "_nested_xref", False):
         # dimension arithmetic that enters the graph as values (reshape targets, slice limits) is served from LowerDimExpr's memo
@@ -609,6 +610,24 @@ def run_producer_op_tests(res: Results, idx: Index) -> None:
                     obj = src(left.value, 60)
                 elif isinstance(left, ast.Call) and (call_name(left) or "") == "getattr" and len(left.args) >= 2 and isinstance(left.args[1], ast.Constant) and left.args[1].value == "op_type":
                     obj = src(left.args[0], 60)
+                neutralised = False
+                if obj is None and isinstance(left, ast.Name):
+                    # a local that holds the producer's op_type: `producer_op = getattr(producer, "op_type", "")`
+                    du_ = defuse(fi.node)
+                    for d in du_.defs.get(left.id, []):
+                        v_ = d.value
+                        while isinstance(v_, ast.Call) and (call_name(v_) or "") in ("str",) and v_.args:
+                            v_ = v_.args[0]
+                        if isinstance(v_, ast.Attribute) and v_.attr == "op_type":
+                            obj = src(v_.value, 60)
+                        elif isinstance(v_, ast.Call) and (call_name(v_) or "") == "getattr" and len(v_.args) >= 2 and isinstance(v_.args[1], ast.Constant) and v_.args[1].value == "op_type":
+                            obj = src(v_.args[0], 60)
+                    if obj is not None:
+                        # `if <obj>.domain != "": producer_op = ""` neutralises the name for foreign-domain nodes
+                        for st_ in walk_no_nested(fi.node):
+                            if isinstance(st_, ast.If) and any(isinstance(x, ast.Constant) and x.value == "domain" or (isinstance(x, ast.Attribute) and x.attr == "domain") for x in ast.walk(st_.test)) \
+                                    and obj in src(st_.test, 200) and any(isinstance(b, ast.Assign) and any(isinstance(t, ast.Name) and t.id == left.id for t in b.targets) and isinstance(b.value, ast.Constant) for b in st_.body):
+                                neutralised = True
                 if obj is None:
                     continue
                 lit = [k for k in ast.walk(c.comparators[0]) if isinstance(k, ast.Constant) and isinstance(k.value, str) and k.value[:1].isupper()]
@@ -624,9 +643,46 @@ def run_producer_op_tests(res: Results, idx: Index) -> None:
                               or (isinstance(x, ast.Call) and (call_name(x) or "") == "getattr" and len(x.args) >= 2 and isinstance(x.args[1], ast.Constant) and x.args[1].value == "domain" and src(x.args[0], 60) == obj)
                               or (isinstance(x, ast.Call) and (call_name(x) or "").endswith("_is_standard_onnx_node"))
                               for sn in scope_nodes for x in ast.walk(sn))
-                if has_dom:
+                if neutralised:
+                    res.ok("R-C01p", site, key, f"`{src(left, 30)}` is cleared for producers outside the default domain before it is compared", fi.qualname)
+                elif has_dom:
                     res.ok("R-C01p", site, key, f"`{src(c, 50)}` is accompanied by a domain test on `{obj}`", fi.qualname)
                 else:
                     res.violation("R-C01p", site, key, f"`{src(c, 60)}` selects a lowering by the producer's operator NAME only: the call node of an @onnx_function named `{lit[0].value}` has that op_type in its own domain "
                                   "and is taken for the standard operator", fi.qualname)
     res.analysed["producer_op_tests"] = n
+
+
+# ---------------------------------------------------------------------------------------------- R-C01q
+def run_exact_constant_matches(res: Results, idx: Index) -> None:
+    """A lowering that switches to a fused / special form because a constant operand or parameter "is 2" (`x ** 2` summed ->
+    ReduceSumSquare, `(a + b) / 2` -> Mean, alpha == 1 -> default attribute, epsilon == 0 -> plain form) computes another
+    function for every other constant.  `np.isclose` / `np.allclose` / `math.isclose` accept a neighbourhood of the constant
+    (rtol 1e-5: 2.00001 is "2"), so the export of `sum(x ** 2.00001)` is off by 2.3e-4.  Inside plugin lowerings and
+    substitutes such matches have to be exact comparisons."""
+    res.rule("R-C01q", "lowerings select special forms by exact comparison with a constant, never by isclose / allclose", floor=5)
+    n = 0
+    for m in idx.product_modules():
+        if "/plugins/" not in m.rel or ".examples" in m.name or m.rel.endswith(("_post_check_onnx_graph.py", "test_utils.py")):
+            continue
+        for fi in m.funcs.values():
+            is_lowering = fi.name == "lower" or fi.name.startswith(("_lower", "lower_")) or "patched" in fi.name or fi.name.startswith("_patched")
+            for c in walk_no_nested(fi.node):
+                if not (isinstance(c, ast.Call) and (call_name(c) or "").split(".")[-1] in ("isclose", "allclose") and len(c.args) >= 2):
+                    continue
+                if not any(isinstance(a, ast.Constant) and isinstance(a.value, (int, float)) for a in c.args[:2]):
+                    continue
+                # post-export graph checks of the testcases are not part of the conversion
+                if any(isinstance(p_, (ast.FunctionDef,)) and ("check" in p_.name.lower() or "expect" in p_.name.lower() or p_.name.startswith("_assert")) for p_ in [fi.node]):
+                    continue
+                n += 1
+                key = f"{m.rel}::{fi.qualname}::approximate-match::{src(c, 40)}"
+                site = f"{m.rel}:{c.lineno}"
+                res.violation("R-C01q", site, key, f"`{src(c, 60)}` lets a whole neighbourhood of the constant select this lowering: a value that is only close to it (2.00001) is exported as if it were the constant", fi.qualname)
+            # exact comparisons with a numeric literal that gate a lowering: the accepted form (counted so that the rule has instances)
+            if is_lowering:
+                for c in walk_no_nested(fi.node):
+                    if isinstance(c, ast.Compare) and len(c.ops) == 1 and isinstance(c.ops[0], (ast.Eq, ast.NotEq)) and isinstance(c.comparators[0], ast.Constant) and isinstance(c.comparators[0].value, float):
+                        n += 1
+                        res.ok("R-C01q", f"{m.rel}:{c.lineno}", f"{m.rel}::{fi.qualname}::exact-match::{src(c, 40)}", "exact comparison", fi.qualname)
+    res.analysed["constant_match_sites"] = n
